@@ -733,8 +733,9 @@ def judge_cli(case, with_ordering):
         return True, 'hang: no answer within the time limit'
     if rc != 0:
         if 'panicked' in err:
-            msg = [l for l in err.split('\n') if 'panicked' in l or (l.strip() and not l.startswith(('note:', 'finished', 'stack')))]
-            return True, 'panic: ' + ' '.join(msg)[:200]
+            ls = err.split('\n')
+            at = [i for i, l in enumerate(ls) if 'panicked' in l][0]
+            return True, 'panic: ' + ' '.join(x.strip() for x in ls[at:at + 2])[:200]
         return True, 'exit status %s: %s' % (rc, err.strip()[-160:])
     occ = [n for n in names if n in reference_identifiers(case['text'])]
     free = [n for n in order if n in names and fr[names.index(n)]]
@@ -919,8 +920,8 @@ def jobs_nopanic(quick):
         for sh, k in [(B2, 3)] + ([] if quick else [(Q1, 3), (('fp', ('bin', 'L', 'L')), 3), (('cc', ('L', 'L')), 3)]):
             cfg = dict(E, **c)
             js.append(('main [%s] sketch %r k=%d' % (cfg_text(cfg), sh, k), unit_main, (cfg, sh, k, dict(timeout=250 if quick else 1500))))
-    for text, nm in [('b a', 'ab'), ('', 'a'), ('a a a', 'ab')]:
-        cfg = dict(E, truthtable=True, vars=True, ordering='o.txt', files={'o.txt': text}, names=list(nm))
+    for text, nm in [('b a', 'ab'), ('', 'a'), ('a a a', 'ab'), ('x a y b z', 'ab'), ('x y', 'a')]:
+        cfg = dict(E, truthtable=True, vars=True, export_ordering=True, ordering='o.txt', files={'o.txt': text}, names=list(nm))
         js.append(('main [%s] sketch %r over %s' % (cfg_text(cfg), B2, list(nm)), unit_main, (cfg, B2, len(nm), {})))
     return js
 
